@@ -80,16 +80,43 @@ Theorem C18_node_same_rule :
     node_const orc v = gateway_const orc v.
 Proof. exact node_same_rule. Qed.
 
-(* a value whose str() is not dotted numeric and that awesomeversion cannot
-   compare with "1.4" (exception) or finds older: version "1.4", 1.4 constants,
-   for the gateway and for a node *)
+(* a value whose str() is not dotted numeric: the verdict of is_version's test is
+   the oracle's (the library's) on the comparison is_version performs - for the
+   current code  AwesomeVersion("1.4") > AwesomeVersion(str(v)).  If the library
+   cannot compare (exception) or finds it older: version "1.4" and the 1.4
+   constants, for the gateway and for a node.  If it accepts: kept as written. *)
 Theorem C18_nonnumeric_fallback :
   forall (orc : avop -> pstr -> pstr -> option bool) (v : val),
     dotted_numeric (py_str v) = false ->
-    (orc OpGt (s2p "1.4") (py_str v) = None \/ orc OpGt (s2p "1.4") (py_str v) = Some true) ->
-    safe_is_version orc v = Ok (s2p "1.4")
-    /\ gateway_const orc v = Ok fallback_module /\ node_const orc v = Ok fallback_module.
-Proof. exact nonnumeric_fallback. Qed.
+    eval_vtest orc is_version_test (py_str v) [] =
+      option_map (xorb (vt_neg is_version_test))
+        (orc (vt_op is_version_test) (side_val (vt_l is_version_test) (py_str v) [])
+             (side_val (vt_r is_version_test) (py_str v) []))
+    /\ ((eval_vtest orc is_version_test (py_str v) [] = None
+         \/ eval_vtest orc is_version_test (py_str v) [] = Some true) ->
+        safe_is_version orc v = Ok (s2p "1.4")
+        /\ gateway_const orc v = Ok fallback_module /\ node_const orc v = Ok fallback_module)
+    /\ (eval_vtest orc is_version_test (py_str v) [] = Some false ->
+        safe_is_version orc v = Ok (py_str v)).
+Proof.
+  exact (fun orc v H => conj (is_version_test_oracle orc (py_str v) H)
+                             (conj (nonnumeric_fallback orc v) (nonnumeric_accepted orc v))).
+Qed.
+
+(* FINDING (known_findings: version/container-word).  The fallback does not hold
+   for every non-numeric string: for the oracle that answers like awesomeversion
+   on its SpecialContainer word "dev" (greater than every numeric version) the
+   digit-free string "dev" is kept and selects the 2.2 constants, for the
+   gateway, for a node, and for the presentation request. *)
+Theorem C18_nonnumeric_fallback_refuted :
+  exists (orc : avop -> pstr -> pstr -> option bool) (v : val),
+    dotted_numeric (py_str v) = false
+    /\ forallb (fun c => negb (is_digit c)) (py_str v) = true
+    /\ safe_is_version orc v = Ok (py_str v)
+    /\ gateway_const orc v = Ok (s2p "mysensors.const_22")
+    /\ node_const orc v = Ok (s2p "mysensors.const_22")
+    /\ (do s <- safe_is_version orc v; wants_presentation orc s) = Ok true.
+Proof. exact nonnumeric_fallback_refuted. Qed.
 
 (* the generated tables are the ones the specification was written for, and the
    constructor examples of README.md / mqtt.py / main.py / async_main.py use
@@ -121,6 +148,11 @@ Example C18_ex_strings :
   /\ safe_is_version (fun _ _ _ => None) VNone = Ok (s2p "1.4").
 Proof. vm_compute. repeat split. Qed.
 
+Example C18_ex_fallback_premise :
+  eval_vtest (fun _ _ _ => None) is_version_test (py_str VNone) [] = None
+  /\ eval_vtest (fun _ _ _ => Some true) is_version_test (s2p "abc") [] = Some true.
+Proof. vm_compute. split; reflexivity. Qed.
+
 Example C18_ex_readme_call :
   exists h, construct_case (fun _ _ _ => None) SerialGw false [RepA; RepA; RepA; RepA; RepA; RepA; RepA] = Ok h
     /\ look h (p ["tasks"; "transport"; "timeout"]%string) = Some (VFloat (s2p "2.5"))
@@ -140,4 +172,5 @@ Print Assumptions C18_floor_rule.
 Print Assumptions C18_version_floor.
 Print Assumptions C18_node_same_rule.
 Print Assumptions C18_nonnumeric_fallback.
+Print Assumptions C18_nonnumeric_fallback_refuted.
 Print Assumptions C18_generated_matches_spec.
